@@ -86,7 +86,9 @@ def goal_replay(goal, assumptions=(), encs=None, tol=1e-6, npoints=12, label="")
         if not z3.is_expr(goal):
             if bool(goal):
                 return {"reproduced": False, "detail": "goal is concretely true"}
-            return {"reproduced": True, "detail": f"concrete mismatch in the program traced from the real code (no symbolic input involved){': ' + label if label else ''}"}
+            # a concretely false goal is a fact about the traced program, not yet about behaviour: it needs its own
+            # semantic replay (every such obligation in checks/ has one); the generic replay never confirms it
+            return {"reproduced": False, "detail": f"concrete mismatch in the program traced from the real code, no semantic replay attached{': ' + label if label else ''}"}
         if not cand:
             return {"reproduced": False, "detail": "no encoding of real code is attached to this obligation (opaque symbols only)"}
         ack, ranges, allvars = {}, {}, set()
